@@ -67,7 +67,7 @@ class Ctx:
         self.rep, self.sc, self.seed, self.tier = rep, sc, seed, tier
         self.pending = []            # violations, classified at the end
         self.nontrivial = set()
-        self.binding = {"pinned": 0, "repaired": 0, "drift": 0}
+        self.binding = {"pinned": 0, "repaired": 0, "between": 0, "drift": 0}
         self.drift_samples = []
         self.skipped = {}
         self.rule_defects = {}       # group -> {count, example, entries}
@@ -190,6 +190,13 @@ def second(c, which):
     return first if t2 == "=" else (None if t2 == "-" else t2)
 
 
+def _noparens(text):
+    """the text without what the repaired rules add: parentheses, and the quotes / escapes of decorator strings"""
+    for a in "()\"\\":
+        text = text.replace(a, "")
+    return text.replace("{{", "{").replace("}}", "}")
+
+
 def evaluate(cx, source, setup, c, o):
     """one G case / J line: spec prediction c, observation o.  Returns 'skipped' | 'ok' | 'violation'"""
     rep = cx.rep
@@ -209,6 +216,9 @@ def evaluate(cx, source, setup, c, o):
         binding = "pinned"
     elif echo == repaired_text:
         binding = "repaired"
+    elif _noparens(echo) in (_noparens(c["p"]), _noparens(repaired_text)):
+        # the rules up to parentheses / quoting: some of the repairs of the repaired table are there, others are not
+        binding = "between"
     else:
         binding = "drift"
         if len(cx.drift_samples) < 8:
@@ -224,7 +234,7 @@ def evaluate(cx, source, setup, c, o):
         # fixpoint: the echo of the echo is the echo; where the echo re-associates (spec: ra) it is the echo of the
         # re-associated tree, which the spec predicts
         expected2 = echo
-        if binding != "drift":
+        if binding in ("pinned", "repaired"):
             predicted2 = second(c, "p" if binding == "pinned" else "r")
             if close and predicted2 is not None:
                 expected2 = predicted2
@@ -256,7 +266,7 @@ def confirm_by_repair(cx):
         v["repair_confirmed"] = False
         if v["tags"] == ["stmt/inferred-exponent-respelled"]:
             v["repair_confirmed"] = True      # (nothing to repair in the first echo: see evaluate)
-        elif v["tags"] and v["binding"] == "pinned" and v["spec_repaired"] != v["spec_pinned"]:
+        elif v["tags"] and v["binding"] in ("pinned", "between") and v["spec_repaired"] != v["spec_pinned"]:
             by_setup.setdefault(json.dumps(v["setup"]), []).append(v)
     for n, (setup, vs) in enumerate(by_setup.items()):
         rows = run_harness(cx, "repair%d" % n, json.loads(setup), [{"input": v["spec_repaired"], "probes": v["probes"]} for v in vs])
@@ -280,8 +290,15 @@ def classify_and_report(cx):
         groups = sorted({group_of(t) for t in v["tags"]})
         v["groups"] = groups
         v["sig"] = None
-        if groups and v["binding"] == "pinned" and v["repair_confirmed"] and all(g in known_kinds for g in groups):
-            v["sig"] = groups[0]
+        # narrow signature: the echo is exactly the text of the pinned rules, every table entry in which that text differs
+        # from the repaired one belongs to a known finding, and the repaired text is accepted and means the same.  If the
+        # echo already has SOME of the repaired table's parentheses (binding "between": a partially repaired printer), the
+        # entries that are still responsible cannot be told apart by text: one known group suffices.
+        knowng = [g for g in groups if g in known_kinds]
+        if groups and v["repair_confirmed"] and ((v["binding"] == "pinned" and len(knowng) == len(groups))
+                                                 or (v["binding"] == "between" and knowng)):
+            v["sig"] = knowng[0]
+            v["groups"] = knowng if v["binding"] == "between" else groups
         key = "%s | %s | %s" % (v["kind"], ",".join(groups) or "-", v["source"].split("/")[0])
         summary[key] = summary.get(key, 0) + 1
         rep.violation(v, lambda x, k: x.get("sig") is not None and k.get("signature", {}).get("kind") in x["groups"])
@@ -294,7 +311,13 @@ def classify_and_report(cx):
 # ---------------------------------------------------------------------------------------------
 
 def note_rule_defects(cx, cases, label):
-    """MC result on the pinned table, per group: how many trees / templates the spec says do not read back"""
+    """MC result on the pinned table, per group: how many trees / templates the spec says do not read back (TLC evaluates
+    the round trip of BOTH tables for every tree in the run whose invariant is stated for the repaired one; the thorough
+    tier also runs TLC with the invariant stated for the pinned table, which stops at the first counterexample)"""
+    first = next((c for c in cases if not c.get("ok")), None)
+    if first is not None:
+        cx.rep.notes.setdefault("pinned_table_first_counterexample", {})[label] = {
+            "input": first["i"], "echo": first["p"], "table_entries": first.get("d"), "repaired_echo": first["r"]}
     for c in cases:
         if c.get("ok") and c.get("p2", "=") == "=":
             continue
@@ -350,7 +373,7 @@ def mc_pinned(cx, module, name, body):
         cx.rep.notes["pinned_table_model_checking"][module]["remark"] = "no counterexample within this bound"
 
 
-def g_statements(cx):
+def g_statements(cx, pinned_run=True):
     rep = cx.rep
     body = "CONSTANTS Variant = \"%s\"\nSPECIFICATION Spec\nINVARIANTS CheckAndEmit\nCHECK_DEADLOCK FALSE\n"
     res = tlc_run("MC_PrinterStmts", "stmts", body % "repaired", workers=1)
@@ -372,7 +395,8 @@ def g_statements(cx):
             raise nv.ToolError("statement template rejected by the real code: %r: %s" % (c["i"], o.get("msg")))
     nv.log("G statements: %s" % st)
     rep.sample({"input": cases[24]["i"], "echo_pinned": cases[24]["p"], "echo_repaired": cases[24]["r"], "entries": cases[24]["d"]}, limit=6)
-    mc_pinned(cx, "MC_PrinterStmts", "stmts_pinned", body % "pinned")
+    if pinned_run:
+        mc_pinned(cx, "MC_PrinterStmts", "stmts_pinned", body % "pinned")
 
 
 def trace_line(o):
@@ -399,7 +423,10 @@ def j_traces(cx, ntraces, n, depth, setup):
         p = os.path.join(cx.sc, "trace_%d.ndjson" % k)
         nv.write_ndjson(p, [trace_line(r) for r in rows])
         paths.append((p, rows))
+    t0 = time.time()
     results = nv.validate_traces_parallel("Trace_Printer", [p for p, _ in paths], cfg="Trace_Printer_lenient.cfg", timeout=1500, jobs=4)
+    nv.log("J: %d traces of %d lines validated by Trace_Printer in %.1fs" % (ntraces, n, time.time() - t0))
+    cx.jresults = results
     for k, ((p, rows), r) in enumerate(zip(paths, results)):
         if r["res"].cases.get("REJECTED") or r["violated"]:
             raise nv.ToolError("trace validation did not consume all lines of %s (%s)" % (p, r["violated"]))
@@ -463,8 +490,7 @@ def self_tests(cx, jpaths):
     # (3) J: a corrupted recorded echo is rejected at exactly that line (strict configuration)
     p, rows = jpaths[0]
     lines = nv.read_ndjson_text(open(p, encoding="utf-8").read())
-    res = nv.validate_trace("Trace_Printer", p, cfg="Trace_Printer_lenient.cfg")
-    badlines = {b["line"] for b in res["res"].cases.get("BAD", [])}
+    badlines = {b["line"] for b in cx.jresults[0]["res"].cases.get("BAD", [])}
     good = [l for i, l in enumerate(lines) if (i + 1) not in badlines]
     k = next(i for i in range(len(good) // 2, len(good)) if good[i]["outcome"] == "ok" and " " in good[i]["echo"])
     good = good[:k + 20]
@@ -493,8 +519,7 @@ def run(tier, seed):
     pinned_body = "CONSTANTS MaxNodes = %d\n          Wide = FALSE\n          Variant = \"pinned\"\nSPECIFICATION Spec\nINVARIANTS CheckAndEmit\nCHECK_DEADLOCK FALSE\n"
     if tier == "quick":
         g_trees(cx, 5, False, "quick")
-        mc_pinned(cx, "MC_Printer", "trees_pinned", pinned_body % 4)
-        g_statements(cx)
+        g_statements(cx, pinned_run=False)
         jpaths = j_traces(cx, 2, 1200, 6, SETUP)
     else:
         g_trees(cx, 6, False, "6-nodes")
